@@ -118,8 +118,11 @@ def rule_append_law(ctx):
                       "reserve resizes inner to inner.len() + len, zero-filled", "reserve resizes to %s" % show(a[1]))
         ex = Exits(b)
         for (bi, si) in ex.ok_defs:
-            st = b.blocks[bi]["stmts"][si]
-            v = o._rvalue(st["r"], (bi, si), 0)
+            if si == "term":
+                v = o.call_expr(bi)
+            else:
+                st = b.blocks[bi]["stmts"][si]
+                v = o._rvalue(st["r"], (bi, si), 0)
             lenc = strip(v)
             okm = lenc[0] == "call" and lenc[1] == "std::vec::Vec::len" and all(b.dominates(lenc[3][1], rb) for rb, _ in rs)
             ctx.check(okm, R, ("reserve", "returns-old-len"), b.where(bi, si), "reserve returns inner.len() taken before the resize",
